@@ -288,6 +288,9 @@ def operations():
         "whitint": lambda a: a.hdc.whit.whitint(labels, tmpl),
         "spi": lambda a: a.hdc.algo.spi(),
         "spi_groups": lambda a: a.hdc.algo.spi(groups=[0, 1, 0, 1, 0, 1]),
+        "spi_dtype_int32": lambda a: a.hdc.algo.spi(dtype="int32"),
+        "spi_groups_dtype_float32": lambda a: a.hdc.algo.spi(groups=[0, 1, 0, 1, 0, 1], dtype="float32"),
+        "rolling_sum_float64": lambda a: a.hdc.rolling.sum(2, dtype="float64"),
         "lroo": lambda a: ones(a).hdc.algo.lroo(),
         "croo": lambda a: ones(a).hdc.algo.croo(),
         "autocorr": lambda a: a.hdc.algo.autocorr(),
@@ -307,12 +310,15 @@ CORE_TIME_OPS = None
 def materialise(r):
     """Eagerly computed xarray object -> comparable structure."""
     import xarray as xr
+    declared = {k: str(r[k].dtype) for k in r.data_vars} if isinstance(r, xr.Dataset) else {"_": str(r.dtype)}
     with warnings.catch_warnings():
         warnings.simplefilter("ignore")
         r = r.compute()
-    if isinstance(r, xr.Dataset):
-        return {k: r[k] for k in r.data_vars}
-    return {"_": r}
+    out = {k: r[k] for k in r.data_vars} if isinstance(r, xr.Dataset) else {"_": r}
+    for k in out:
+        # what the (possibly lazy) object announced before it was computed
+        out[k].attrs = dict(out[k].attrs, __declared_dtype__=declared[k])
+    return out
 
 
 def same(a, b, canon_dims=None):
@@ -328,6 +334,8 @@ def same(a, b, canon_dims=None):
         y2 = y.transpose(*x.dims)
         if x.dtype != y2.dtype:
             return f"{k}: dtype {y2.dtype} vs eager {x.dtype}"
+        if y.attrs.get("__declared_dtype__") not in (None, str(x.dtype)):
+            return f"{k}: the lazy result announced dtype {y.attrs.get('__declared_dtype__')} but the in-memory result has {x.dtype}"
         if x.shape != y2.shape or not np.array_equal(x.values, y2.values, equal_nan=True):
             return f"{k}: values differ from the eager in-memory result"
         for c in x.coords:
